@@ -14,9 +14,14 @@ CONSTANTS U,          \* universe selector: "A" (timing/policy), "B" (failover)
           Depth, Horizon,
           AdvSet,     \* deltas by which the clock may advance in one step
           ReportSet,  \* issues the environment may report in this configuration
+          BadSet,     \* path ids a lookup may also return as an object the policies reject (no / changed metadata)
+          B1, B2, B3, \* backoff durations after 1, 2, >= 3 consecutive failures
           GEN
 
-VARIABLES h          \* history (hidden from the fingerprint by VIEW)
+VARIABLES h,         \* history (hidden from the fingerprint by VIEW)
+          lastAct    \* the last step taken; part of the view in generation mode only, so that one history is printed
+                     \* per distinct (state, last step): lookups that differ only in paths the filter removes lead to
+                     \* the same state but are different tests of the code
 
 \* ---- universe A: 3 allowed paths (1,2 equally long, 3 longer), path 4 violates the policy; one transit issue
 \* ---- universe B: paths 1,2 share the first-hop interface, path 3 is disjoint and longer
@@ -36,8 +41,8 @@ UPen      == IF U = "A" THEN (1 :> 10000) @@ (2 :> 10000) @@ (3 :> 10000)
 UApplies  == IF U = "A" THEN (1 :> TRUE) @@ (2 :> TRUE) @@ (3 :> TRUE)
                         ELSE (1 :> TRUE) @@ (2 :> TRUE) @@ (3 :> TRUE) @@ (4 :> TRUE) @@ (5 :> TRUE) @@ (6 :> FALSE)
 
-\* backoff {min 1, factor 2, max 3, jitter 0}: duration(1) = 2, duration(n >= 2) = 3
-MCBackoffTab == <<2, 3>>
+\* backoff.duration(1), duration(2), duration(n >= 3) with jitter 0 (default {min 1, factor 2, max 3}: 2, 3, 3)
+MCBackoffTab == <<B1, B2, B3>>
 \* half-lives: reliability 90 s = 3 ticks of 30 s, cached issue 30 s = 1 tick
 MCRelTab == <<10000, 7937, 6300>>
 MCIssTab == <<10000>>
@@ -51,18 +56,20 @@ ASSUME \A p \in UPaths : Cardinality({i \in ReportSet : p \in UHits[i]}) <= 2
 \* every answer of the lookup service: a non-empty set of paths with a lifetime each, nothing, or an error
 FetchOutcomes ==
   LET Partial == [UPaths -> ExpChoices \cup {0}]   \* 0 = path not returned
-  IN {[k |-> "ok", ps |-> {[id |-> p, exp |-> now + g[p]] : p \in {q \in UPaths : g[q] # 0}}] :
-        g \in {g \in Partial : \E p \in UPaths : g[p] # 0}}
+      Bad     == SUBSET BadSet                    \* which of the returned paths come back as objects the policies reject
+  IN {[k |-> "ok", ps |-> {[id |-> p, exp |-> now + g[p], ok |-> p \notin b] : p \in {q \in UPaths : g[q] # 0}}] :
+        g \in {g \in Partial : \E p \in UPaths : g[p] # 0}, b \in Bad}
      \cup {[k |-> "empty"], [k |-> "err"]}
 
-Proj == [now |-> now, alive |-> alive, cache |-> [k \in 1..Len(cache) |-> [id |-> cache[k].id, exp |-> cache[k].exp]],
+Proj == [now |-> now, alive |-> alive,
+         cache |-> [k \in 1..Len(cache) |-> [id |-> cache[k].id, exp |-> cache[k].exp, ok |-> cache[k].ok]],
          sc |-> [k \in 1..Len(cache) |-> ScoreAt(cache[k], now)],
          active |-> active, nr |-> nextRefetch, ni |-> nextIdle, failed |-> failed, used |-> used,
          imap |-> MapSize(imap), ififo |-> Len(fifo), pend |-> (chan # <<>> \/ lag), nm |-> NextMaintain, out |-> out]
 
-Step(a) == h' = Append(h, [a |-> a, s |-> Proj'])
+Step(a) == h' = Append(h, [a |-> a, s |-> Proj']) /\ lastAct' = a
 
-MCInit == Init /\ h = <<>>
+MCInit == Init /\ h = <<>> /\ lastAct = [a |-> "init"]
 Bounded == Len(h) < Depth
 MCTick    == Bounded /\ \E f \in FetchOutcomes \cup {[k |-> "na"]} : Tick(f) /\ Step([a |-> "tick", fetch |-> f])
 MCReport  == Bounded /\ \E i \in ReportSet : Report(i) /\ Step([a |-> "report", i |-> i])
@@ -70,11 +77,11 @@ MCIngest  == Bounded /\ Ingest /\ Step([a |-> "ingest"])
 MCSend    == Bounded /\ Send /\ Step([a |-> "send"])
 MCAdvance == Bounded /\ \E d \in AdvSet : now + d <= Horizon /\ Advance(d) /\ Step([a |-> "adv", d |-> d])
 MCNext == MCTick \/ MCReport \/ MCIngest \/ MCSend \/ MCAdvance
-MCSpec == MCInit /\ [][MCNext]_<<vars, h>>
+MCSpec == MCInit /\ [][MCNext]_<<vars, h, lastAct>>
 
 \* the history h and the unbounded ghost everOk are hidden; BFS reaches every state first at its minimal depth
 MCView == <<now, alive, cache, active, nextRefetch, nextIdle, failed, used, imap, fifo, chan, lag, out,
-            lastOk, lastFetch, lastAcc>>
+            lastOk, lastFetch, lastAcc, IF GEN THEN lastAct ELSE 0>>
 
 Emit == GEN => (h = <<>> \/ PrintT(<<"REPLAY", ToJson(h)>>))
 =============================================================================
